@@ -138,6 +138,8 @@ type CaseRec struct {
 	addrs    map[string]string
 	Mon      *ChainMonitor
 	admitted map[string]bool
+	// why the last sync round rejected a neighbor answer: "inc|target" / "full|target" -> reason
+	Rejections map[string]string
 }
 
 func NewCaseRec(id string, n *Node, universe []string) *CaseRec {
@@ -381,6 +383,7 @@ func (c *CaseRec) Update(now int64, peers []*Peer) string {
 	n.Senders.Set(nil)
 	res := "kept"
 	rejected := map[string]bool{}
+	c.Rejections = map[string]string{}
 	for _, l := range lines {
 		if strings.Contains(l, "blockchain replaced") {
 			res = "replaced"
@@ -391,10 +394,19 @@ func (c *CaseRec) Update(now int64, peers []*Peer) string {
 			if i := strings.Index(rest, ": "); i >= 0 {
 				tgt = rest[:i]
 			}
+			reason := ""
+			if i := strings.Index(rest, ": "); i >= 0 {
+				reason = rest[i+2:]
+			}
+			if c.Rejections == nil {
+				c.Rejections = map[string]string{}
+			}
 			if strings.Contains(l, "whole neighbor") {
 				rejected["full|"+tgt] = true
+				c.Rejections["full|"+tgt] = reason
 			} else {
 				rejected["inc|"+tgt] = true
+				c.Rejections["inc|"+tgt] = reason
 			}
 		}
 	}
